@@ -41,7 +41,7 @@ FLOORS = {
     "identical_modules_in_different_dirs": 0.02,
 }
 
-FAULTS = ["illegal_char", "unterminated", "undeclared_type", "missing_file"]
+FAULTS = ["illegal_char", "unterminated", "undeclared_type", "missing_file", "semantic"]
 
 
 @st.composite
@@ -72,6 +72,9 @@ def apply_fault(files: Dict[str, str], mods: List[Tuple[str, M.Schema, int]], fa
         files[path] = text.rstrip()[:-1]
     elif kind == "undeclared_type":
         files[path] = text + "\nstruct Zq9Tail {\nq @ 0 : NoSuchTypeQ ,\n}\n"
+    elif kind == "semantic":
+        # syntactically fine, rejected by a transformer action (unknown field parameter / empty enumeration)
+        files[path] = text + ["\nstruct Zq9Tail {\nq @ 0 : u8 | nosuchparamq ( 1 ) ,\n}\n", "\nenum Zq9Tail {\n}\n"][k % 2]
     return files
 
 
@@ -174,8 +177,127 @@ def check(tree: M.Schema, fault: Any, rel: bool) -> Optional[str]:
     return None
 
 
+# ----------------------------------------------------------------- edit sessions (one directory, several loads)
+EDITS = ["restore", "strip", "swap_kinds", "fault", "fault", "touch_only"]
+
+
+@st.composite
+def session(draw):
+    """A module tree in ONE directory that is edited in place and re-loaded 2-4 times by the same process: a module is
+    emptied (its types vanish), its enums and structs trade places, a fault is typed into it and removed again.  Only the
+    files whose text changes are re-written, so every other file keeps its time stamp."""
+    tree = draw(MO.module_tree(3, True))
+    mods = MO.module_files(tree)
+    steps = []
+    for _ in range(draw(st.integers(2, 4))):
+        kind = draw(st.sampled_from(EDITS)) if mods else "restore"
+        idx = draw(st.integers(0, len(mods) - 1)) if mods else 0
+        steps.append((kind, idx, draw(st.sampled_from(FAULTS)), draw(st.integers(0, 5))))
+    return tree, steps
+
+
+def edited_tree(tree: M.Schema, kind: str, idx: int) -> M.Schema:
+    import copy
+
+    t = copy.deepcopy(tree)
+    mods = MO.module_files(t)
+    if not mods or kind not in ("strip", "swap_kinds"):
+        return t
+    sch = mods[idx][1]
+    if kind == "strip":
+        sch.decls = [d for d in sch.decls if isinstance(d, M.Mod)] + [M.Enum("Zq9Keep", [("K", 0)])]
+    else:
+        out = []
+        for d in sch.decls:
+            if isinstance(d, M.Enum):
+                out.append(M.Struct(d.name, [M.Field("swapped", 0, M.U(8))]))
+            elif isinstance(d, M.Struct) and all(not isinstance(x, (M.Impl, M.Service)) for x in sch.decls):
+                out.append(M.Enum(d.name, [("Swapped", 0)]))
+            else:
+                out.append(d)
+        sch.decls = out
+    return t
+
+
+def check_session(tree: M.Schema, steps: List[Tuple[str, int, str, int]], rec: Any = None) -> Optional[str]:
+    with MO.Scratch("verif-c20s-") as sc:
+        on_disk: Dict[str, str] = {}
+        root = sc.path("main.fcp")
+        for n, (kind, idx, fkind, k) in enumerate(steps):
+            cur = edited_tree(tree, kind, idx)
+            files = MO.files_of(cur)
+            mods = MO.module_files(cur)
+            fault = None
+            if kind == "fault" and mods:
+                fault = (fkind, idx, k)
+                files = apply_fault(files, mods, fault)
+            # synchronise the directory: write only what changed, remove what is gone
+            for rel in list(on_disk):
+                if rel not in files:
+                    os.unlink(sc.path(rel))
+                    del on_disk[rel]
+            for rel, text in files.items():
+                if on_disk.get(rel) != text:
+                    pth = sc.path(rel)
+                    os.makedirs(os.path.dirname(pth), exist_ok=True)
+                    with open(pth, "w") as f:
+                        f.write(text)
+                    on_disk[rel] = text
+            kind_r, res, logger = MO.get_fcp_logged(root)
+            where = f"load #{n + 1} of an edited tree (edit '{kind}'" + (f", fault {fkind}" if fault else "") + ")"
+            if rec is not None:
+                rec.cls("session_load", "session_edit_" + kind)
+            if kind_r == "exc":
+                return f"{where}: exception {type(res).__name__}: {res}"
+            if fault:
+                mpath = mods[idx][0]
+                if kind_r == "ok":
+                    return f"{where}: (b) schema accepted although {mpath} contains a fault"
+                diag, rexc = MO.render(logger, res)
+                if rexc is not None:
+                    return f"{where}: (b) the error cannot be rendered ({rexc})"
+                needle = os.path.basename(mpath) if fkind == "missing_file" else os.path.basename(mpath)[: -len(".fcp")]
+                if needle not in repr(res) + "\n" + (diag or ""):
+                    return f"{where}: (b) error does not name '{needle}': {(repr(res) + (diag or ''))[:300]}"
+                continue
+            kind2, res2, _l = MO.parse_text_logged(printer.to_text(cur.inlined()))
+            if kind2 == "exc":
+                raise HarnessError(f"single-file parse raised {res2!r}")
+            if kind2 == "err":
+                # the edited tree is ill-formed as a single file too (a stripped module leaves references dangling)
+                if rec is not None:
+                    rec.cls("session_illformed_after_edit")
+                if kind_r == "ok":
+                    return (f"{where}: the split schema is accepted although the single-file schema is rejected "
+                            f"({repr(res2)[:160]})")
+                diag, rexc = MO.render(logger, res)
+                if rexc is not None:
+                    return f"{where}: the error cannot be rendered ({rexc})"
+                continue
+            if kind_r != "ok":
+                return f"{where}: (a) split schema not accepted although the single-file schema is ({repr(res)[:300]})"
+            got, single = res.to_dict(), res2.to_dict()
+            if not ET.strict_eq(got, single):
+                return f"{where}: (a) split != single-file at " + ET.first_diff(got, single)
+    return None
+
+
 def run_shard(ctx: Ctx) -> None:
     rec = ctx.rec
+
+    def body_session(c: Any) -> None:
+        tree, steps = c
+        rec.eval()
+        rec.cls("edit_session")
+        files = MO.files_of(tree)
+        if MO.module_files(tree):
+            rec.nt([files, [list(x) for x in steps]])
+        msg = check_session(tree, steps, rec)
+        if msg:
+            raise Violation(msg, {"kind": "session", "tree_pickle": pickle_b64(tree), "steps": [list(x) for x in steps],
+                                  "files": files})
+
+    hyp_run(ctx, session(), body_session, ctx.n(800, 8000), tag="session")
 
     def body(c: Any) -> None:
         tree, fault, rel = c
@@ -195,6 +317,8 @@ def run_shard(ctx: Ctx) -> None:
 
 
 def replay(c: Dict[str, Any]) -> Optional[str]:
+    if c.get("kind") == "session":
+        return check_session(unpickle_b64(c["tree_pickle"]), [tuple(x) for x in c["steps"]])
     tree = unpickle_b64(c["tree_pickle"])
     fault = tuple(c["fault"]) if c["fault"] else None
     return check(tree, fault, c["relative"])
